@@ -395,6 +395,24 @@ def long_sequences(col, pp):
     return test
 
 
+def shaped_sequences(col, pp):
+    """histories with the shape of a real session: some declarations, some steps (stages in between), a bake, a few
+    calls afterwards.  A uniformly random list rarely declares two objects, uses one of them twice and then bakes."""
+    from hypothesis import given
+    uses = [c for c in CALLS if c.startswith('uses:')]
+    stages = [c for c in CALLS if c.startswith(('start:', 'end:'))]
+    steps = [c for c in CALLS if not c.startswith(('uses:', 'start:', 'end:')) and c != 'bake']
+
+    @given(st.lists(st.sampled_from(uses), min_size=1, max_size=4),
+           st.lists(st.sampled_from(steps + steps + stages), min_size=1, max_size=8),
+           st.lists(st.sampled_from(CALLS), min_size=0, max_size=4))
+    def test(decl, body, tail):
+        col.label('long')
+        col.label('shaped')
+        run_sequence(col, pp, decl + body + ['bake'] + tail, long_=True)
+    return test
+
+
 def run(col):
     pp = core.env.bootstrap()
     maxlen = 3 if col.tier == 'quick' else 4
@@ -411,6 +429,7 @@ def run(col):
                 col.enumerated += 1
     col.exhaustive = True
     core.run_property(col, lambda: long_sequences(col, pp), budget(150, 3000, col.tier), tag='long')
+    core.run_property(col, lambda: shaped_sequences(col, pp), budget(150, 3000, col.tier), tag='shaped')
 
 
 def replay(col, case):
